@@ -6,7 +6,8 @@ from vlib import core, twoconf
 PROP = 'C02'
 MODEL_MODULES = ['TenpyModel.Util.J', 'TenpyModel.Core.Codec', 'TenpyModel.C02.Struct']
 PROPS_MODULES = ['TenpyModel.C02.Props', 'TenpyModel.C02.PropsSlice', 'TenpyModel.C02.PropsMerge',
-                 'TenpyModel.C02.PropsCtor', 'TenpyModel.C02.PropsHistory', 'TenpyModel.C02.PropsPartial']
+                 'TenpyModel.C02.PropsCtor', 'TenpyModel.C02.PropsHistory', 'TenpyModel.C02.PropsPartial',
+                 'TenpyModel.C02.Props2']
 LEVEL = 'proof'
 BUDGET = {'quick': 175, 'thorough': 1700}
 RULE = ('random HISTORIES of public Array operations (<=10 steps quick, <=25 thorough; ~50 operations incl. in-place '
